@@ -1,0 +1,11 @@
+//go:build verif
+// +build verif
+
+package server
+
+import "go.etcd.io/etcd/clientv3"
+
+// VerifInitOrGetClusterID exposes initOrGetClusterID to the verification harness.
+func VerifInitOrGetClusterID(c *clientv3.Client, key string) (uint64, error) {
+	return initOrGetClusterID(c, key)
+}
